@@ -96,6 +96,24 @@ def parse_call(queue: Chunks, ids: IDS):
     ensures("tail-kept", concat_chunks(queue) == B[e:len(B)])
 
 
+@obligation(["C13"], "parse_space_packets/queue-owns-its-data", verifies=[Q])
+def kept_data_is_not_the_callers_buffer(chunk: BytesLen(0, 9), later: BytesLen(1, 3), ids: IDS):
+    """what a call keeps for the next call (and what it returned) is the parser's own data: a caller that re-uses its receive
+    buffer after handing it over - the usual pattern with one bytearray per socket read - does not change either.  Short single
+    chunks are the interesting case: nothing can be emitted yet, everything is kept."""
+    from collections import deque
+    buf = bytearray(chunk)
+    q = deque([buf])
+    r = parse_space_packets(q, packet_ids_of(ids))
+    kept = concat_chunks(q)
+    emitted = snapshot(r)
+    buf.extend(later)            # the caller appends the next read to ITS buffer ...
+    ensures("kept-tail-unchanged-by-caller", concat_chunks(q) == kept)
+    ensures("emitted-unchanged-by-caller", same_state(r, emitted))
+    buf.clear()                  # ... or recycles it
+    ensures("kept-tail-survives-recycling", concat_chunks(q) == kept)
+
+
 # ---------------------------------------------------------------------------------------------
 # lemmas over the reference scan (spec level): what `ref_scan` means for a stream of packets, and
 # why the result does not depend on how the stream was cut into chunks / calls
